@@ -371,6 +371,27 @@ class CBeltImpl(FleetImpl):
         it.length = 1
         return it
 
+    def do(self, op):
+        prev = None
+        if op[0] == "put" and self.store.items:
+            last = self.store.items[-1][0]
+            try:
+                now = self.env.now
+                ist = getattr(last, "interruption_start_time", None)
+                tob = now - last.conveyor_entry_time - getattr(last, "total_interruption_time", 0) - ((now - ist) if ist is not None else 0)
+                prev = f2t(tob)
+            except Exception:
+                prev = "?"
+        elif op[0] == "put":
+            prev = "-"
+        res = ImplBase.do(self, op)
+        if res is None or res.startswith("stat") or res.startswith("probe"): return res
+        newit = [it for it in self.store.ready_items if id(it) not in self._seen_ready]
+        self._seen_ready = set(id(it) for it in self.store.ready_items)
+        acct = [f"a{it.hid}:{f2t(it.conveyor_entry_time)}:{f2t(getattr(it, 'total_interruption_time', 0))}" for it in newit]
+        if op[0] == "put" and res.split("|")[0].strip() == "ok": acct.append(f"p{prev}")
+        return res + " | " + " ".join(str(it.hid) for it in newit) + " | " + " ".join(acct)
+
     def urgent_pending(self):
         c = sorted((t, p, e) for (t, p, e, evt) in self.env._queue if not self.transparent((t, p, e, evt)))
         return bool(c) and c[0][0] == self.env.now and c[0][1] == 0
